@@ -22,9 +22,9 @@ import (
 )
 
 var (
-	kfNaN   bool // KF-C10-nan-payload active
-	kfPPC   bool // KF-C10-ppc-noncanonical active
-	kfFP80  bool // KF-C10-fp80-noncanonical active
+	kfNaN  bool // KF-C10-nan-payload active
+	kfPPC  bool // KF-C10-ppc-noncanonical active
+	kfFP80 bool // KF-C10-fp80-noncanonical active
 )
 
 func TestMain(m *testing.M) {
